@@ -397,10 +397,16 @@ def real_apply(op, pool, vals):
     if k == 'slice':
         return T()[slice(*op['s'])]
     if k == 'mask':
-        return T()[list(op['m'])]
+        return T()[np.array(op['m'], dtype=bool)] if op.get('np') else T()[list(op['m'])]
     if k == 'ints':
+        if op.get('range'):
+            return T()[range(*op['range'])]
         return T()[np.array(op['i'], dtype=op['np'])] if op.get('np') else T()[list(op['i'])]
     if k == 'project':
+        if op.get('view') == 'keys':
+            return T()[{c: None for c in op['cs']}.keys()]
+        if op.get('view') == 'values':
+            return T()[{i: c for i, c in enumerate(op['cs'])}.values()]
         return T()[list(op['cs'])]
     if k == 'tuple':
         return T()[tuple(op['cs'])]
@@ -435,7 +441,9 @@ def real_apply(op, pool, vals):
         raise HarnessError(how)
     if k == 'do':
         f = _do_fn(op['f'])
-        return T().do(f, *op['cs']) if op.get('star') else T().do(f, list(op['cs']))
+        if op.get('all'):
+            return T().do(f)                       # no keys: every column
+        return T().do(f, *op['cs']) if op.get('star') and op['cs'] else T().do(f, list(op['cs']))
     if k == 'drop':
         cs = op['cs']
         return T() - (cs[0] if len(cs) == 1 and op.get('single') else list(cs))
@@ -731,6 +739,8 @@ def gen_history(rng, nops):
             mask = [False] * m.n if mode < 0.2 else [True] * m.n if mode < 0.3 else [rng.random() < 0.5 for _ in range(m.n)]
             if m.n == 1 or len(mask) != 1:
                 op = {'op': 'mask', 't': t, 'm': mask, 'dst': dst}
+                if rng.random() < 0.2:
+                    op['np'] = True       # the mask as a numpy bool array
         elif k == 'ints' and m.cols and m.n:
             op = {'op': 'ints', 't': t, 'i': [rng.randrange(-m.n, m.n) for _ in range(rng.randint(1, 4))], 'dst': dst}
             r_ = rng.random()
@@ -739,8 +749,16 @@ def gen_history(rng, nops):
                 op['np'] = rng.choice(['int64', 'int32'])
             elif r_ < 0.4:
                 op['np'] = 'int64'
+            elif r_ < 0.55:       # positions as a range (possibly an empty one), or no positions at all
+                a_ = rng.randrange(0, m.n + 1); b_ = rng.randrange(a_, m.n + 1); st_ = rng.choice([1, 1, 2])
+                op['range'] = [a_, b_, st_]
+                op['i'] = list(range(a_, b_, st_))
+            elif r_ < 0.62:
+                op['i'] = []
         elif k == 'project' and m.cols:
             op = {'op': 'project', 't': t, 'cs': gen.subset(rng, m.cols, 1), 'dst': dst}
+            if rng.random() < 0.2:
+                op['view'] = rng.choice(['keys', 'values'])     # the column names as a dict view
         elif k == 'tuple' and m.cols:
             cs = gen.subset(rng, m.cols, 1)
             if tuple(cs) not in [(c,) for c in m.cols] or True:
@@ -793,11 +811,16 @@ def gen_history(rng, nops):
             if fn == 'pair':
                 f['other'] = rng.choice(others)
             op = {'op': 'do', 't': t, 'cs': cs, 'f': f, 'star': rng.random() < 0.5, 'dst': dst}
+            r_ = rng.random()
+            if r_ < 0.12 and fn != 'pair':
+                op['cs'] = list(m.cols); op['all'] = True          # no keys given: every column
+            elif r_ < 0.2:
+                op['cs'] = []; op['star'] = False                  # an empty key list: nothing to do
         elif k == 'drop' and m.cols:
             cs = gen.subset(rng, m.cols + free[:1], 1, 2)
             op = {'op': 'drop', 't': t, 'cs': cs, 'single': rng.random() < 0.5, 'dst': dst}
         elif k in ('concat', 'add'):
-            ts = [rng.randrange(len(mp)) for _ in range(rng.choice([1, 2, 2, 3]) if k == 'concat' else rng.choice([2, 3]))]
+            ts = [rng.randrange(len(mp)) for _ in range(rng.choice([0, 1, 2, 2, 2, 3]) if k == 'concat' else rng.choice([2, 3]))]
             if sum(mp[i].n for i in ts) <= 12:
                 op = {'op': k, 'ts': ts, 'star': rng.random() < 0.5, 'dst': dst}
         elif k == 'add_record' and m.n <= 10:
